@@ -203,6 +203,8 @@ SIMPLE = {
     "SETITEMS": b"u",
     "ADDITEMS": b"\x90",
     "STACK_GLOBAL": b"\x93",
+    "NEXT_BUFFER": b"\x97",
+    "READONLY_BUFFER": b"\x98",
     "STOP": b".",
 }
 
@@ -284,6 +286,7 @@ class Profile:
         star_list_args=False,
         weights=None,
         build_on=("obj", "glob"),
+        any_callee=False,
     ):
         self.ops = tuple(ops)
         self.globs = tuple(globs)
@@ -299,6 +302,10 @@ class Profile:
         self.star_list_args = star_list_args
         self.weights = dict(weights or {})
         self.build_on = tuple(build_on)
+        # any stack value may stand where the VM expects a callable (the real VM would fail with
+        # TypeError at that opcode; a static decompiler cannot know): for checks that need no
+        # reference VM
+        self.any_callee = any_callee
 
 
 FOCUS_OPS = (
@@ -315,6 +322,11 @@ FULL_OPS = FOCUS_OPS + (
     "FROZENSET", "APPENDS", "SETITEM", "SETITEMS", "ADDITEMS", "PUT", "LONG_BINPUT", "GET",
     "LONG_BINGET", "PERSID",
 )  # fmt: skip
+
+# protocol-5 out-of-band buffer opcodes: not part of FULL_OPS (fickling does not implement them and
+# how a decompile should name an out-of-band buffer is not determined by any property); the
+# shape lock-step (C09) and the determinism check (C13) opt in
+BUFFER_OPS = ("NEXT_BUFFER", "READONLY_BUFFER")
 
 INT_POOL = (0, 1, 5, 255, 256, 65535, 65536, 2**31 - 1, 2**31, -1, -(2**31), -(2**31) - 1,
             2**63 - 1, 2**63, -(2**63), 2**100, -(2**100))  # fmt: skip
@@ -352,10 +364,32 @@ def alias_profile(**kw):
     return Profile(ops=ALIAS_OPS, globs=(), ints=(1,), strs=("a",), memo_keys=(0,), **kw)
 
 
-ENUM_PROFILES = {"containers": container_profile, "aliasing": alias_profile}
+KWARGS_OPS = ("GLOBAL", "EMPTY_TUPLE", "EMPTY_DICT", "MARK", "SHORT_BINUNICODE", "SETITEM", "SETITEMS",
+              "NEWOBJ_EX")  # fmt: skip
 
 
-def full_profile(globs, **kw):
+def kwargs_profile(**kw):
+    """fourth bounded-exhaustive alphabet: NEWOBJ_EX with every way of building its keyword dict
+    from two keys, one of which is not an identifier (legal: `f(**{"b-c": 1})`)"""
+    return Profile(ops=KWARGS_OPS, globs=(("verif_objs", "NewArgsEx"),), ints=(1,), strs=("a", "b-c"),
+                   memo_keys=(0,), **kw)  # fmt: skip
+
+
+BUFFER_ENUM_OPS = ("NEXT_BUFFER", "READONLY_BUFFER", "SHORT_BINBYTES", "BYTEARRAY8", "MARK", "TUPLE",
+                   "POP", "BINPUT", "BINGET", "TUPLE2", "NONE")  # fmt: skip
+
+
+def buffer_profile(**kw):
+    """fifth bounded-exhaustive alphabet: the protocol-5 out-of-band buffer opcodes among marks,
+    memo traffic and in-band bytes / bytearrays"""
+    return Profile(ops=BUFFER_ENUM_OPS, globs=(), ints=(1,), strs=("a",), byteses=(b"x",), memo_keys=(0,), **kw)
+
+
+ENUM_PROFILES = {"containers": container_profile, "aliasing": alias_profile, "kwargs": kwargs_profile,
+                 "buffers": buffer_profile}  # fmt: skip
+
+
+def full_profile(globs, buffers=False, **kw):
     # default weight is 2; opcodes fickling does not implement get 1 (they end in a refusal)
     weights = {
         "GLOBAL": 10, "REDUCE": 12, "OBJ": 8, "INST": 5, "NEWOBJ": 8, "NEWOBJ_EX": 8, "BUILD": 6,
@@ -364,9 +398,11 @@ def full_profile(globs, **kw):
         "APPENDS": 4, "FROZENSET": 4, "DICT": 4, "EMPTY_SET": 3, "EMPTY_DICT": 3, "POP_MARK": 3,
         "PERSID": 1, "FLOAT": 1, "BYTEARRAY8": 1, "EMPTY_TUPLE": 4,
     }  # fmt: skip
+    if buffers:
+        weights.update(NEXT_BUFFER=5, READONLY_BUFFER=5, BYTEARRAY8=3)
     kw.setdefault("weights", weights)
     return Profile(
-        ops=FULL_OPS,
+        ops=FULL_OPS + (BUFFER_OPS if buffers else ()),
         globs=globs,
         ints=INT_POOL,
         strs=STR_POOL,
@@ -436,7 +472,7 @@ class State:
         return True
 
     def _callable(self, v):
-        return v.k in ("glob", "obj")
+        return v.k in ("glob", "obj") or (self.p.any_callee and v.k != "mark")
 
     # -- which op kinds are legal now
     def legal_ops(self):
@@ -504,6 +540,10 @@ class State:
             return bool(self.params(op))
         if op == "GLOBAL":
             return bool(self.params(op))
+        if op == "NEXT_BUFFER":
+            return True
+        if op == "READONLY_BUFFER":
+            return self._seg(1) and st[-1].k in ("bytes", "bytearray", "buffer")
         if op == "STACK_GLOBAL":
             return (
                 self._seg(2)
@@ -679,6 +719,11 @@ class State:
             st.append(V("bytes", val=arg))
         elif op == "BYTEARRAY8":
             st.append(V("bytearray", val=arg))
+        elif op == "NEXT_BUFFER":
+            st.append(V("buffer"))
+        elif op == "READONLY_BUFFER":
+            if st[-1].k != "bytes":
+                st[-1] = V("buffer")
         elif op == "MARK":
             st.append(V("mark"))
         elif op == "EMPTY_LIST":
